@@ -8,6 +8,7 @@
 From Coq Require Import List NArith Bool String.
 From Verif Require Import Kv.KeyOrd Kv.AList Kv.Spec Kv.Mem Kv.Sql Kv.Refine Gen.KvSql.
 From Verif Require Import Kv.Own Kv.OwnSkel Kv.OwnProofs Kv.Tables Kv.TablesProofs Gen.KvMemOwn.
+From Verif Require Import Kv.Rows Gen.KvRows.
 Import ListNotations.
 Local Open Scope string_scope.
 
@@ -128,3 +129,18 @@ Lemma gen_sqlite_tables_refine maxlen hk jv hs slots ops :
   srel (fst (run (l_step maxlen hk jv (sql_step gen_sqlite_methods) true hs) (init_state true slots) ops))
        (fst (run (l_step maxlen hk jv spec_step true hs) (init_state true slots) ops)).
 Proof. exact (tables_refine_spec maxlen hk jv _ true hs slots ops gen_sqlite_step_refines). Qed.
+
+(** ** The result set of a walk ends with the walk (sqlite3_kv.go, psql_kv.go,
+    sql_util.go): every walk* method defers rows.Close() (or sqlIterRows
+    does), so the result set - and with it the connection's read lock - is
+    released however the walk ends: rows exhausted, an error or ErrCancel from
+    Scan or the callback, a panic of the callback. *)
+Lemma gen_walks_release :
+  all_release (shape_from gen_sqlite_walk_defer gen_iter_rows_skel) = true /\
+  all_release (shape_from gen_psql_walk_defer gen_iter_rows_skel) = true.
+Proof. vm_compute. split; reflexivity. Qed.
+
+Lemma gen_sqlite_walk_releases_on_every_exit ops t :
+  run (rows_step (shape_from gen_sqlite_walk_defer gen_iter_rows_skel) gen_sqlite_methods) (t, O) ops
+  = ((fst (run (sql_step gen_sqlite_methods) t ops), O), snd (run (sql_step gen_sqlite_methods) t ops)).
+Proof. exact (walk_releases_on_every_exit _ gen_sqlite_methods (proj1 gen_walks_release) ops t). Qed.
